@@ -657,4 +657,790 @@ theorem readToEndLoop_spec : ∀ (fuel : Nat) (r : Rd) (b : VBuf) (start total :
         rw [this]; simp
       · simp [h1]
 
+/-! ## writers -/
+
+/-- everything a FIFO writer has accepted so far, in order -/
+def BaseWr.sink : BaseWr → Bytes
+  | .script got _ _ _ => got
+  | .vec v => v
+  | .sliceMut s => s.done
+  | .cursorVec v _ => v
+  | .cursorArr a _ => a
+
+/-- the writers that append what they accept (cursors overwrite at a position instead) -/
+def BaseWr.Fifo : BaseWr → Prop
+  | .script _ _ _ _ => True
+  | .vec _ => True
+  | .sliceMut _ => True
+  | _ => False
+
+def BaseWr.entries : BaseWr → Nat
+  | .script _ sc _ _ => sc.length
+  | _ => 0
+
+def BaseWr.errs : BaseWr → List Nat
+  | .script _ sc _ _ => sc.filterMap fun | .err k => some k | _ => none
+  | _ => []
+
+def WritePost (w : BaseWr) (data : Bytes) : Res Nat × BaseWr → Prop
+  | (.ok n, w') =>
+    n ≤ data.length ∧ w'.sink = w.sink ++ data.take n ∧ w'.Fifo ∧ w'.entries ≤ w.entries ∧
+      (∀ k, k ∈ w'.errs → k ∈ w.errs)
+  | (.err .interrupted, w') =>
+    w'.sink = w.sink ∧ w'.Fifo ∧ w'.entries < w.entries ∧ (∀ k, k ∈ w'.errs → k ∈ w.errs)
+  | (.err (.other k), w') => w'.sink = w.sink ∧ w'.Fifo ∧ w'.entries ≤ w.entries ∧ k ∈ w.errs
+  | _ => False
+
+theorem BaseWr.write_post (w : BaseWr) (data : Bytes) (hf : w.Fifo) : WritePost w data (w.write data) := by
+  cases w with
+  | script got sc f s =>
+    cases sc with
+    | nil => simp [BaseWr.write, scriptWrite, WritePost, BaseWr.sink, BaseWr.Fifo, BaseWr.entries, BaseWr.errs]
+    | cons o rest =>
+      cases o with
+      | eof => simp [BaseWr.write, scriptWrite, WritePost, BaseWr.sink, BaseWr.Fifo, BaseWr.entries, BaseWr.errs]
+      | intr => simp [BaseWr.write, scriptWrite, WritePost, BaseWr.sink, BaseWr.Fifo, BaseWr.entries, BaseWr.errs]
+      | err k => simp [BaseWr.write, scriptWrite, WritePost, BaseWr.sink, BaseWr.Fifo, BaseWr.entries, BaseWr.errs]
+      | ok n =>
+        simp only [BaseWr.write, scriptWrite, WritePost, BaseWr.sink, BaseWr.Fifo, BaseWr.entries, BaseWr.errs]
+        refine ⟨by omega, trivial, trivial, by simp, ?_⟩
+        intro k hk
+        simpa using hk
+  | vec v => simp [BaseWr.write, WritePost, BaseWr.sink, BaseWr.Fifo, BaseWr.entries, BaseWr.errs]
+  | sliceMut sm =>
+    simp [BaseWr.write, SliceMut.write, WritePost, BaseWr.sink, BaseWr.Fifo, BaseWr.entries, BaseWr.errs]
+    omega
+  | cursorVec v p => simp [BaseWr.Fifo] at hf
+  | cursorArr a p => simp [BaseWr.Fifo] at hf
+
+theorem BaseWr.write_cases (w : BaseWr) (data : Bytes) (hf : w.Fifo) :
+    (∃ n w', w.write data = (.ok n, w')) ∨ (∃ w', w.write data = (.err .interrupted, w')) ∨
+      (∃ k w', w.write data = (.err (.other k), w')) := by
+  have hp := BaseWr.write_post w data hf
+  generalize hrd : w.write data = out at hp
+  obtain ⟨res, w'⟩ := out
+  cases res with
+  | ok n => exact Or.inl ⟨n, w', rfl⟩
+  | err e =>
+    cases e with
+    | interrupted => exact Or.inr (Or.inl ⟨w', rfl⟩)
+    | other k => exact Or.inr (Or.inr ⟨k, w', rfl⟩)
+    | unexpectedEof => simp [WritePost] at hp
+    | writeZero => simp [WritePost] at hp
+  | panic => simp [WritePost] at hp
+  | ub => simp [WritePost] at hp
+  | fuel => simp [WritePost] at hp
+
+theorem BaseWr.write_ok {w : BaseWr} {data : Bytes} {n : Nat} {w' : BaseWr} (hf : w.Fifo)
+    (h : w.write data = (.ok n, w')) :
+    n ≤ data.length ∧ w'.sink = w.sink ++ data.take n ∧ w'.Fifo ∧ w'.entries ≤ w.entries ∧
+      (∀ k, k ∈ w'.errs → k ∈ w.errs) := by
+  have := BaseWr.write_post w data hf
+  rw [h] at this
+  exact this
+
+theorem BaseWr.write_intr {w : BaseWr} {data : Bytes} {w' : BaseWr} (hf : w.Fifo)
+    (h : w.write data = (.err .interrupted, w')) :
+    w'.sink = w.sink ∧ w'.Fifo ∧ w'.entries < w.entries ∧ (∀ k, k ∈ w'.errs → k ∈ w.errs) := by
+  have := BaseWr.write_post w data hf
+  rw [h] at this
+  exact this
+
+theorem BaseWr.write_other {w : BaseWr} {data : Bytes} {k : Nat} {w' : BaseWr} (hf : w.Fifo)
+    (h : w.write data = (.err (.other k), w')) :
+    w'.sink = w.sink ∧ w'.Fifo ∧ w'.entries ≤ w.entries ∧ k ∈ w.errs := by
+  have := BaseWr.write_post w data hf
+  rw [h] at this
+  exact this
+
+/-! ## `Buffer::flush_to` -/
+
+theorem flushLoop_succ (fuel : Nat) (w : BaseWr) (b : Buffer) (total : Nat) :
+    flushLoop (fuel + 1) w b total =
+      match w.write b.pending with
+      | (.ok n, w') =>
+        if n = 0 then (.err .writeZero, w', b)
+        else
+          match b.advance n with
+          | none => (.panic, w', b)
+          | some b' =>
+            if b'.allDone then (.ok (total + n), w', b'.reset) else flushLoop fuel w' b' (total + n)
+      | (.err e, w') => (.err e, w', b)
+      | (.panic, w') => (.panic, w', b)
+      | (.ub, w') => (.ub, w', b)
+      | (.fuel, w') => (.fuel, w', b) := rfl
+
+/-- outcome of a flush: `t` bytes of the pending data went to the inner writer, in order, and the
+buffer keeps exactly the unsent tail (so a retry sends exactly the rest); on success nothing is
+left. Errors: `WriteZero`, or what the inner writer reported. Never a panic. -/
+def FlushPost (w : BaseWr) (b : Buffer) (total : Nat) (out : Res Nat × BaseWr × Buffer) : Prop :=
+  ∃ t, out.2.1.sink = w.sink ++ b.pending.take t ∧ out.2.2.pending = b.pending.drop t ∧
+    out.2.2.WF ∧ out.2.2.cap = b.cap ∧ out.2.1.Fifo ∧ out.2.1.entries ≤ w.entries ∧
+    (∀ k, k ∈ out.2.1.errs → k ∈ w.errs) ∧
+    ((out.1 = .ok (total + t) ∧ t = b.pending.length) ∨
+      (out.1 = .err .writeZero ∧ t < b.pending.length) ∨
+      (out.1 = .err .interrupted ∧ t < b.pending.length ∧ out.2.1.entries < w.entries) ∨
+      (∃ k, out.1 = .err (.other k) ∧ k ∈ w.errs ∧ t < b.pending.length))
+
+theorem flushLoop_spec : ∀ (fuel : Nat) (w : BaseWr) (b : Buffer) (total : Nat), w.Fifo → b.WF →
+    b.pending ≠ [] → b.pending.length ≤ fuel → FlushPost w b total (flushLoop fuel w b total) := by
+  intro fuel
+  induction fuel with
+  | zero =>
+    intro w b total _ _ hne hf
+    exfalso
+    apply hne
+    exact List.eq_nil_of_length_eq_zero (by omega)
+  | succ fuel ih =>
+    intro w b total hfifo hwf hne hf
+    have hpl : 0 < b.pending.length := List.length_pos_iff.mpr hne
+    rw [flushLoop_succ]
+    rcases BaseWr.write_cases w b.pending hfifo with ⟨n, w1, h⟩ | ⟨w1, h⟩ | ⟨k, w1, h⟩
+    · obtain ⟨h1, h2, h3, h4, h5⟩ := BaseWr.write_ok hfifo h
+      rw [h]
+      by_cases hz : n = 0
+      · simp only [hz, if_true]
+        show FlushPost w b total (.err .writeZero, w1, b)
+        refine ⟨0, ?_, by simp, hwf, rfl, h3, h4, h5, Or.inr (Or.inl ⟨rfl, hpl⟩)⟩
+        simp [h2, hz]
+      · simp only [hz, if_false]
+        have hadv := Buffer.advance_some b n hwf h1
+        rw [hadv]
+        simp only []
+        have hap := Buffer.advance_pending b _ n hadv
+        have haw := Buffer.advance_wf b _ n hwf hadv
+        by_cases hd : ({ b with begin := b.begin + n } : Buffer).allDone = true
+        · simp only [hd, if_true]
+          have hpe := Buffer.allDone_pending _ hd
+          rw [hap.1] at hpe
+          have hnl : n = b.pending.length := by
+            have := congrArg List.length hpe
+            simp [List.length_drop] at this
+            omega
+          refine ⟨n, ?_, ?_, Buffer.reset_wf _, rfl, h3, h4, h5, Or.inl ⟨rfl, hnl⟩⟩
+          · exact h2
+          · simp [hpe]
+        · rw [if_neg hd]
+          have hd' : ({ b with begin := b.begin + n } : Buffer).allDone = false := by simpa using hd
+          have hne' := Buffer.not_allDone_pending _ hd'
+          have hlen' : ({ b with begin := b.begin + n } : Buffer).pending.length ≤ fuel := by
+            rw [hap.1, List.length_drop]; omega
+          obtain ⟨t, e1, e2, e3, e4, e5, e6, e7, e8⟩ := ih w1 _ (total + n) h3 haw hne' hlen'
+          refine ⟨n + t, ?_, ?_, e3, e4, e5, by omega, fun k hk => h5 k (e7 k hk), ?_⟩
+          · rw [e1, h2, hap.1, List.append_assoc, take_add_drop]
+          · rw [e2, hap.1, List.drop_drop]
+          · rw [hap.1, List.length_drop] at e8
+            rcases e8 with ⟨a1, a2⟩ | ⟨a1, a2⟩ | ⟨a1, a2, a3⟩ | ⟨k, a1, a2, a3⟩
+            · exact Or.inl ⟨by rw [a1]; congr 1; omega, by omega⟩
+            · exact Or.inr (Or.inl ⟨a1, by omega⟩)
+            · exact Or.inr (Or.inr (Or.inl ⟨a1, by omega, by omega⟩))
+            · exact Or.inr (Or.inr (Or.inr ⟨k, a1, h5 k a2, by omega⟩))
+    · obtain ⟨h1, h2, h3, h4⟩ := BaseWr.write_intr hfifo h
+      rw [h]
+      show FlushPost w b total (.err .interrupted, w1, b)
+      refine ⟨0, by simp [h1], by simp, hwf, rfl, h2, Nat.le_of_lt h3, h4,
+        Or.inr (Or.inr (Or.inl ⟨rfl, hpl, h3⟩))⟩
+    · obtain ⟨h1, h2, h3, h4⟩ := BaseWr.write_other hfifo h
+      rw [h]
+      show FlushPost w b total (.err (.other k), w1, b)
+      exact ⟨0, by simp [h1], by simp, hwf, rfl, h2, h3, fun k' hk' => by
+        have := BaseWr.write_post w b.pending hfifo
+        rw [h] at this
+        -- the error list can only shrink
+        cases w with
+        | script got sc f s =>
+          cases sc with
+          | nil => simp [BaseWr.write, scriptWrite] at h
+          | cons o rest =>
+            cases o <;> simp [BaseWr.write, scriptWrite] at h
+            obtain ⟨_, hw1⟩ := h
+            subst hw1
+            simp [BaseWr.errs] at hk' ⊢
+            exact Or.inr hk'
+        | vec v => simp [BaseWr.write] at h
+        | sliceMut sm => simp [BaseWr.write] at h
+        | cursorVec v p => simp [BaseWr.Fifo] at hfifo
+        | cursorArr a p => simp [BaseWr.Fifo] at hfifo,
+        Or.inr (Or.inr (Or.inr ⟨k, rfl, h4, hpl⟩))⟩
+
+/-- `flush_to` -/
+theorem flushTo_spec (w : BaseWr) (b : Buffer) (hf : w.Fifo) (hw : b.WF) :
+    FlushPost w b 0 (flushTo w b) := by
+  unfold flushTo
+  split
+  · rename_i hd
+    have hp := Buffer.allDone_pending b hd
+    exact ⟨0, by simp, by simp, hw, rfl, hf, Nat.le_refl _, fun _ h => h, Or.inl ⟨rfl, by simp [hp]⟩⟩
+  · rename_i hd
+    exact flushLoop_spec _ w b 0 hf hw (Buffer.not_allDone_pending b (by simpa using hd)) (Nat.le_refl _)
+
+/-! ## `BufWriter::write` -/
+
+/-- the inner writer never answers `Interrupted` -/
+def BaseWr.NoIntr : BaseWr → Prop
+  | .script _ sc _ _ => Outcome.intr ∉ sc
+  | _ => True
+
+theorem BaseWr.noIntr_write (w : BaseWr) (data : Bytes) (hf : w.Fifo) (h : w.NoIntr) :
+    (w.write data).2.NoIntr ∧ (w.write data).1 ≠ .err .interrupted := by
+  cases w with
+  | script got sc f s =>
+    cases sc with
+    | nil => simp [BaseWr.write, scriptWrite, BaseWr.NoIntr]
+    | cons o rest =>
+      simp only [BaseWr.NoIntr, List.mem_cons, not_or] at h
+      cases o with
+      | intr => exact absurd rfl h.1
+      | eof => simp [BaseWr.write, scriptWrite, BaseWr.NoIntr, h.2]
+      | err k => simp [BaseWr.write, scriptWrite, BaseWr.NoIntr, h.2]
+      | ok n => simp [BaseWr.write, scriptWrite, BaseWr.NoIntr, h.2]
+  | vec v => simp [BaseWr.write, BaseWr.NoIntr]
+  | sliceMut sm => simp [BaseWr.write, BaseWr.NoIntr]
+  | cursorVec v p => simp [BaseWr.Fifo] at hf
+  | cursorArr a p => simp [BaseWr.Fifo] at hf
+
+/-- `flush_if_needed`: like a flush that may also do nothing -/
+def FlushIfPost (w : BaseWr) (b : Buffer) (out : Res Unit × BaseWr × Buffer) : Prop :=
+  ∃ t, out.2.1.sink = w.sink ++ b.pending.take t ∧ out.2.2.pending = b.pending.drop t ∧
+    out.2.2.WF ∧ out.2.2.cap = b.cap ∧ out.2.1.Fifo ∧ out.2.1.entries ≤ w.entries ∧
+    (w.NoIntr → out.2.1.NoIntr) ∧
+    (out.1 = .ok () ∨ out.1 = .err .writeZero ∨
+      (out.1 = .err .interrupted ∧ out.2.1.entries < w.entries ∧ ¬ w.NoIntr) ∨
+      (∃ k, out.1 = .err (.other k)))
+
+theorem flushLoop_noIntr : ∀ (fuel : Nat) (w : BaseWr) (b : Buffer) (total : Nat), w.Fifo → w.NoIntr →
+    (flushLoop fuel w b total).2.1.NoIntr ∧ (flushLoop fuel w b total).1 ≠ .err .interrupted := by
+  intro fuel
+  induction fuel with
+  | zero => intro w b total _ h; simp [flushLoop, h]
+  | succ fuel ih =>
+    intro w b total hf hn
+    rw [flushLoop_succ]
+    have hw := BaseWr.noIntr_write w b.pending hf hn
+    have hp := BaseWr.write_post w b.pending hf
+    generalize hrd : w.write b.pending = out at hw hp
+    obtain ⟨res, w1⟩ := out
+    cases res with
+    | ok n =>
+      simp only [WritePost] at hp
+      simp only []
+      split
+      · exact ⟨hw.1, by simp⟩
+      · split
+        · exact ⟨hw.1, by simp⟩
+        · split
+          · exact ⟨hw.1, by simp⟩
+          · exact ih w1 _ _ hp.2.2.1 hw.1
+    | err e =>
+      cases e with
+      | interrupted => exact absurd rfl hw.2
+      | other k => exact ⟨hw.1, by simp⟩
+      | unexpectedEof => exact ⟨hw.1, by simp⟩
+      | writeZero => exact ⟨hw.1, by simp⟩
+    | panic => exact ⟨hw.1, by simp⟩
+    | ub => exact ⟨hw.1, by simp⟩
+    | fuel => exact ⟨hw.1, by simp⟩
+
+theorem flushIfNeeded_spec (w : BaseWr) (b : Buffer) (hf : w.Fifo) (hw : b.WF) :
+    FlushIfPost w b (flushIfNeeded w b) := by
+  unfold flushIfNeeded
+  split
+  · have hp := flushTo_spec w b hf hw
+    have hn : w.NoIntr → (flushTo w b).2.1.NoIntr ∧ (flushTo w b).1 ≠ .err .interrupted := by
+      intro hn
+      unfold flushTo
+      split
+      · exact ⟨hn, by simp⟩
+      · exact flushLoop_noIntr _ w b 0 hf hn
+    generalize hrd : flushTo w b = out at hp hn
+    obtain ⟨res, w1, b1⟩ := out
+    obtain ⟨t, e1, e2, e3, e4, e5, e6, e7, e8⟩ := hp
+    simp only [] at e1 e2 e3 e4 e5 e6 e7 e8 hn
+    rcases e8 with ⟨a1, a2⟩ | ⟨a1, a2⟩ | ⟨a1, a2, a3⟩ | ⟨k, a1, a2, a3⟩
+    · subst a1
+      exact ⟨t, e1, e2, e3, e4, e5, e6, fun h => (hn h).1, Or.inl rfl⟩
+    · subst a1
+      exact ⟨t, e1, e2, e3, e4, e5, e6, fun h => (hn h).1, Or.inr (Or.inl rfl)⟩
+    · subst a1
+      exact ⟨t, e1, e2, e3, e4, e5, e6, fun h => (hn h).1,
+        Or.inr (Or.inr (Or.inl ⟨rfl, a3, fun h => (hn h).2 rfl⟩))⟩
+    · subst a1
+      exact ⟨t, e1, e2, e3, e4, e5, e6, fun h => (hn h).1, Or.inr (Or.inr (Or.inr ⟨k, rfl⟩))⟩
+  · exact ⟨0, by simp, by simp, hw, rfl, hf, Nat.le_refl _, fun h => h, Or.inl rfl⟩
+
+/-! ## writers with or without a `BufWriter` -/
+
+/-- bytes accepted and not lost: what reached the inner writer followed by what is buffered -/
+def Wr.sink : Wr → Bytes
+  | .base w => w.sink
+  | .buf w b => w.sink ++ b.pending
+
+def Wr.entries : Wr → Nat
+  | .base w => w.entries
+  | .buf w _ => w.entries
+
+/-- a FIFO writer, or a `BufWriter` over a FIFO writer that never answers `Interrupted` -/
+def Wr.Good : Wr → Prop
+  | .base w => w.Fifo
+  | .buf w b => w.Fifo ∧ b.WF ∧ w.NoIntr
+
+/-- post-condition of one `write` on a good writer: `Ok(n)` takes exactly the first `n` bytes;
+`Interrupted` takes nothing; another error may leave a prefix of the data in a `BufWriter`'s buffer -/
+def WrPost (w : Wr) (data : Bytes) : Res Nat × Wr → Prop
+  | (.ok n, w') => n ≤ data.length ∧ w'.sink = w.sink ++ data.take n ∧ w'.Good ∧ w'.entries ≤ w.entries
+  | (.err .interrupted, w') => w'.sink = w.sink ∧ w'.Good ∧ w'.entries < w.entries
+  | (.err .unexpectedEof, _) => False
+  | (.err _, w') => (∃ k, k ≤ data.length ∧ w'.sink = w.sink ++ data.take k) ∧ w'.Good
+  | _ => False
+
+theorem bufWrite_post (w : BaseWr) (b : Buffer) (data : Bytes) (hf : w.Fifo) (hw : b.WF) (hn : w.NoIntr) :
+    WrPost (.buf w b) data
+      ((bufWrite w b data).1, .buf (bufWrite w b data).2.1 (bufWrite w b data).2.2) := by
+  unfold bufWrite
+  have h1 := flushIfNeeded_spec w b hf hw
+  generalize hrd : flushIfNeeded w b = out at h1
+  obtain ⟨res, w1, b1⟩ := out
+  obtain ⟨t, e1, e2, e3, e4, e5, e6, e7, e8⟩ := h1
+  simp only [] at e1 e2 e3 e4 e5 e6 e7 e8
+  have hs1 : w1.sink ++ b1.pending = w.sink ++ b.pending := by
+    rw [e1, e2, List.append_assoc, List.take_append_drop]
+  rcases e8 with a | a | ⟨a, _, a3⟩ | ⟨k, a⟩
+  · subst a
+    simp only []
+    have hps := Buffer.push_spec b1 data e3
+    have h2 := flushIfNeeded_spec w1 (b1.push data).2 e5 hps.2.1
+    generalize hrd2 : flushIfNeeded w1 (b1.push data).2 = out2 at h2
+    obtain ⟨res2, w2, b2⟩ := out2
+    obtain ⟨t2, f1, f2, f3, f4, f5, f6, f7, f8⟩ := h2
+    simp only [] at f1 f2 f3 f4 f5 f6 f7 f8
+    have hs2 : w2.sink ++ b2.pending = (w.sink ++ b.pending) ++ data.take (b1.push data).1 := by
+      rw [f1, f2, List.append_assoc, List.take_append_drop, hps.1, ← List.append_assoc, hs1]
+    have hle : (b1.push data).1 ≤ data.length := by rw [hps.2.2.1]; omega
+    rcases f8 with a | a | ⟨a, _, a3⟩ | ⟨k, a⟩
+    · subst a
+      exact ⟨hle, hs2, ⟨f5, f3, f7 (e7 hn)⟩, by simp only [Wr.entries]; omega⟩
+    · subst a
+      exact ⟨⟨_, hle, hs2⟩, ⟨f5, f3, f7 (e7 hn)⟩⟩
+    · exact absurd (e7 hn) a3
+    · subst a
+      exact ⟨⟨_, hle, hs2⟩, ⟨f5, f3, f7 (e7 hn)⟩⟩
+  · subst a
+    exact ⟨⟨0, by omega, by simp [Wr.sink, hs1]⟩, ⟨e5, e3, e7 hn⟩⟩
+  · exact absurd hn a3
+  · subst a
+    exact ⟨⟨0, by omega, by simp [Wr.sink, hs1]⟩, ⟨e5, e3, e7 hn⟩⟩
+
+theorem Wr.write_post (w : Wr) (data : Bytes) (hg : w.Good) : WrPost w data (w.write data) := by
+  cases w with
+  | base w =>
+    simp only [Wr.Good] at hg
+    have hp := BaseWr.write_post w data hg
+    simp only [Wr.write]
+    generalize hrd : w.write data = out at hp
+    obtain ⟨res, w1⟩ := out
+    cases res with
+    | ok n =>
+      simp only [WritePost] at hp
+      exact ⟨hp.1, hp.2.1, hp.2.2.1, hp.2.2.2.1⟩
+    | err e =>
+      cases e with
+      | interrupted =>
+        simp only [WritePost] at hp
+        exact ⟨hp.1, hp.2.1, hp.2.2.1⟩
+      | other k =>
+        simp only [WritePost] at hp
+        exact ⟨⟨0, by omega, by simp [Wr.sink, hp.1]⟩, hp.2.1⟩
+      | unexpectedEof => simp [WritePost] at hp
+      | writeZero => simp [WritePost] at hp
+    | panic => simp [WritePost] at hp
+    | ub => simp [WritePost] at hp
+    | fuel => simp [WritePost] at hp
+  | buf w b =>
+    obtain ⟨h1, h2, h3⟩ := hg
+    exact bufWrite_post w b data h1 h2 h3
+
+/-! ## write_all -/
+
+theorem writeAllLoop_succ (fuel : Nat) (w : Wr) (data : Bytes) (needle : Nat) :
+    writeAllLoop (fuel + 1) w data needle =
+      if needle < data.length then
+        match w.write (data.drop needle) with
+        | (.ok n, w') =>
+          if n = 0 then (.err .writeZero, w') else writeAllLoop fuel w' data (needle + n)
+        | (.err .interrupted, w') => writeAllLoop fuel w' data needle
+        | (.err e, w') => (.err e, w')
+        | (.panic, w') => (.panic, w')
+        | (.ub, w') => (.ub, w')
+        | (.fuel, w') => (.fuel, w')
+      else (.ok (), w) := rfl
+
+/-- `write_all` on a good writer: what the writer holds afterwards is what it held before followed
+by a prefix of the data (nothing lost, duplicated or reordered); `Ok` exactly when everything was
+taken; otherwise `WriteZero` or the inner writer's error. Never a panic. -/
+theorem writeAllLoop_spec : ∀ (fuel : Nat) (w : Wr) (data : Bytes) (needle : Nat), w.Good →
+    needle ≤ data.length → (data.length - needle) + w.entries < fuel →
+    ∃ (t : Nat) (res : Res Unit) (w' : Wr),
+      writeAllLoop fuel w data needle = (res, w') ∧ needle + t ≤ data.length ∧
+      w'.sink = w.sink ++ (data.drop needle).take t ∧ w'.Good ∧
+      ((res = .ok () ∧ needle + t = data.length ∧ w'.entries ≤ w.entries) ∨ res = .err .writeZero ∨
+        (∃ k, res = .err (.other k))) := by
+  intro fuel
+  induction fuel with
+  | zero => intro w data needle _ _ hf; omega
+  | succ fuel ih =>
+    intro w data needle hg hn hf
+    rw [writeAllLoop_succ]
+    by_cases hlt : needle < data.length
+    · rw [if_pos hlt]
+      have hp := Wr.write_post w (data.drop needle) hg
+      generalize hrd : w.write (data.drop needle) = out at hp
+      obtain ⟨res, w1⟩ := out
+      have hdl : (data.drop needle).length = data.length - needle := List.length_drop
+      cases res with
+      | ok n =>
+        simp only [WrPost] at hp
+        obtain ⟨h1, h2, h3, h4⟩ := hp
+        by_cases hz : n = 0
+        · simp only [hz, if_true]
+          exact ⟨0, _, w1, rfl, by omega, by simp [h2, hz], h3, Or.inr (Or.inl rfl)⟩
+        · simp only [hz, if_false]
+          obtain ⟨t, res, w2, e1, e2, e3, e4, e5⟩ := ih w1 data (needle + n) h3 (by omega) (by omega)
+          refine ⟨n + t, res, w2, e1, by omega, ?_, e4, ?_⟩
+          · rw [e3, h2, List.append_assoc, ← List.drop_drop, take_add_drop]
+          · rcases e5 with ⟨a, b, c⟩ | a | a
+            · exact Or.inl ⟨a, by omega, by omega⟩
+            · exact Or.inr (Or.inl a)
+            · exact Or.inr (Or.inr a)
+      | err e =>
+        cases e with
+        | interrupted =>
+          simp only [WrPost] at hp
+          obtain ⟨h1, h2, h3⟩ := hp
+          obtain ⟨t, res, w2, e1, e2, e3, e4, e5⟩ := ih w1 data needle h2 hn (by omega)
+          refine ⟨t, res, w2, e1, e2, by rw [e3, h1], e4, ?_⟩
+          rcases e5 with ⟨a, b, c⟩ | a | a
+          · exact Or.inl ⟨a, b, by omega⟩
+          · exact Or.inr (Or.inl a)
+          · exact Or.inr (Or.inr a)
+        | other k =>
+          simp only [WrPost] at hp
+          obtain ⟨⟨k', hk1, hk2⟩, h3⟩ := hp
+          exact ⟨k', _, w1, rfl, by omega, hk2, h3, Or.inr (Or.inr ⟨k, rfl⟩)⟩
+        | writeZero =>
+          simp only [WrPost] at hp
+          obtain ⟨⟨k', hk1, hk2⟩, h3⟩ := hp
+          exact ⟨k', _, w1, rfl, by omega, hk2, h3, Or.inr (Or.inl rfl)⟩
+        | unexpectedEof => simp [WrPost] at hp
+      | panic => simp [WrPost] at hp
+      | ub => simp [WrPost] at hp
+      | fuel => simp [WrPost] at hp
+    · rw [if_neg hlt]
+      exact ⟨0, _, w, rfl, by omega, by simp, hg, Or.inl ⟨rfl, by omega, Nat.le_refl _⟩⟩
+
+
+/-! ## flush / shutdown on a good writer -/
+
+/-- nothing left in the `BufWriter` -/
+def Wr.Flushed : Wr → Prop
+  | .base _ => True
+  | .buf _ b => b.pending = []
+
+theorem BaseWr.flush_keeps (w : BaseWr) :
+    w.flush.sink = w.sink ∧ (w.Fifo → w.flush.Fifo) ∧ (w.NoIntr → w.flush.NoIntr) ∧
+      w.flush.entries = w.entries := by
+  cases w <;> simp [BaseWr.flush, BaseWr.sink, BaseWr.Fifo, BaseWr.NoIntr, BaseWr.entries]
+
+theorem BaseWr.shutdown_keeps (w : BaseWr) :
+    w.shutdown.sink = w.sink ∧ (w.Fifo → w.shutdown.Fifo) ∧ (w.NoIntr → w.shutdown.NoIntr) ∧
+      w.shutdown.entries = w.entries := by
+  cases w <;> simp [BaseWr.shutdown, BaseWr.sink, BaseWr.Fifo, BaseWr.NoIntr, BaseWr.entries]
+
+/-- outcome of `flush`/`shutdown` on a good writer: nothing is lost or reordered; after `Ok`
+everything accepted so far is at the inner writer; the only errors are `WriteZero` and the inner
+writer's own -/
+def CtlPost (w : Wr) (out : Res Unit × Wr) : Prop :=
+  out.2.sink = w.sink ∧ out.2.Good ∧ out.2.entries ≤ w.entries ∧
+    ((out.1 = .ok () ∧ out.2.Flushed) ∨ out.1 = .err .writeZero ∨ (∃ k, out.1 = .err (.other k)))
+
+theorem flushTo_good (w : BaseWr) (b : Buffer) (hf : w.Fifo) (hw : b.WF) (hn : w.NoIntr) :
+    ∃ (t : Nat) (res : Res Nat) (w1 : BaseWr) (b1 : Buffer), flushTo w b = (res, w1, b1) ∧
+      w1.sink ++ b1.pending = w.sink ++ b.pending ∧ w1.Fifo ∧ b1.WF ∧ w1.NoIntr ∧ w1.entries ≤ w.entries ∧
+      w1.sink = w.sink ++ b.pending.take t ∧ b1.pending = b.pending.drop t ∧
+      ((res = .ok t ∧ b1.pending = []) ∨ res = .err .writeZero ∨ (∃ k, res = .err (.other k))) := by
+  have hp := flushTo_spec w b hf hw
+  have hni : (flushTo w b).2.1.NoIntr ∧ (flushTo w b).1 ≠ .err .interrupted := by
+    unfold flushTo
+    split
+    · exact ⟨hn, by simp⟩
+    · exact flushLoop_noIntr _ w b 0 hf hn
+  generalize hrd : flushTo w b = out at hp hni
+  obtain ⟨res, w1, b1⟩ := out
+  obtain ⟨t, e1, e2, e3, e4, e5, e6, e7, e8⟩ := hp
+  simp only [] at e1 e2 e3 e4 e5 e6 e7 e8 hni
+  refine ⟨t, res, w1, b1, rfl, ?_, e5, e3, hni.1, e6, e1, e2, ?_⟩
+  · rw [e1, e2, List.append_assoc, List.take_append_drop]
+  · rcases e8 with ⟨a1, a2⟩ | ⟨a1, a2⟩ | ⟨a1, a2, a3⟩ | ⟨k, a1, a2, a3⟩
+    · refine Or.inl ⟨by rw [a1]; simp, ?_⟩
+      rw [e2, a2]; simp
+    · exact Or.inr (Or.inl a1)
+    · exact absurd a1 hni.2
+    · exact Or.inr (Or.inr ⟨k, a1⟩)
+
+theorem Wr.flush_post (w : Wr) (hg : w.Good) : CtlPost w w.flush := by
+  cases w with
+  | base w =>
+    have hk := BaseWr.flush_keeps w
+    exact ⟨hk.1, hk.2.1 hg, by simp [Wr.flush, Wr.entries, hk.2.2.2], Or.inl ⟨rfl, trivial⟩⟩
+  | buf w b =>
+    obtain ⟨h1, h2, h3⟩ := hg
+    obtain ⟨t, res, w1, b1, e, e1, e2, e3, e4, e5, _, _, e6⟩ := flushTo_good w b h1 h2 h3
+    simp only [Wr.flush, e]
+    rcases e6 with ⟨a1, a2⟩ | a1 | ⟨k, a1⟩
+    · subst a1
+      exact ⟨e1, ⟨e2, e3, e4⟩, e5, Or.inl ⟨rfl, a2⟩⟩
+    · subst a1
+      exact ⟨e1, ⟨e2, e3, e4⟩, e5, Or.inr (Or.inl rfl)⟩
+    · subst a1
+      exact ⟨e1, ⟨e2, e3, e4⟩, e5, Or.inr (Or.inr ⟨k, rfl⟩)⟩
+
+theorem Wr.shutdown_post (w : Wr) (hg : w.Good) : CtlPost w w.shutdown := by
+  cases w with
+  | base w =>
+    have hk := BaseWr.shutdown_keeps w
+    exact ⟨hk.1, hk.2.1 hg, by simp [Wr.shutdown, Wr.entries, hk.2.2.2], Or.inl ⟨rfl, trivial⟩⟩
+  | buf w b =>
+    obtain ⟨h1, h2, h3⟩ := hg
+    obtain ⟨t, res, w1, b1, e, e1, e2, e3, e4, e5, _, _, e6⟩ := flushTo_good w b h1 h2 h3
+    have hk := BaseWr.shutdown_keeps w1
+    simp only [Wr.shutdown, e]
+    rcases e6 with ⟨a1, a2⟩ | a1 | ⟨k, a1⟩
+    · subst a1
+      refine ⟨?_, ⟨hk.2.1 e2, e3, hk.2.2.1 e4⟩, ?_, Or.inl ⟨rfl, a2⟩⟩
+      · simp only [Wr.sink, hk.1]; exact e1
+      · simp only [Wr.entries, hk.2.2.2]; exact e5
+    · subst a1
+      exact ⟨e1, ⟨e2, e3, e4⟩, e5, Or.inr (Or.inl rfl)⟩
+    · subst a1
+      exact ⟨e1, ⟨e2, e3, e4⟩, e5, Or.inr (Or.inr ⟨k, rfl⟩)⟩
+
+/-! ## copy -/
+
+theorem copyLoop_succ (fuel : Nat) (r : Rd) (w : Wr) (size total : Nat) :
+    copyLoop (fuel + 1) r w size total =
+      match r.read size with
+      | (.ok bs, r') =>
+        if bs.length = 0 then
+          match w.flush with
+          | (.ok (), w1) =>
+            match w1.shutdown with
+            | (.ok (), w2) => (.ok total, r', w2)
+            | (.err e, w2) => (.err e, r', w2)
+            | (.panic, w2) => (.panic, r', w2)
+            | (.ub, w2) => (.ub, r', w2)
+            | (.fuel, w2) => (.fuel, r', w2)
+          | (.err e, w1) => (.err e, r', w1)
+          | (.panic, w1) => (.panic, r', w1)
+          | (.ub, w1) => (.ub, r', w1)
+          | (.fuel, w1) => (.fuel, r', w1)
+        else
+          match writeAll (fuel + 1) w bs with
+          | (.ok (), w') => copyLoop fuel r' w' size (total + bs.length)
+          | (.err e, w') => (.err e, r', w')
+          | (.panic, w') => (.panic, r', w')
+          | (.ub, w') => (.ub, r', w')
+          | (.fuel, w') => (.fuel, r', w')
+      | (.err .interrupted, r') => copyLoop fuel r' w size total
+      | (.err e, r') => (.err e, r', w)
+      | (.panic, r') => (.panic, r', w)
+      | (.ub, r') => (.ub, r', w)
+      | (.fuel, r') => (.fuel, r', w) := rfl
+
+/-- `copy_with_size` from any well-formed reader into a good writer: the writer ends up with a
+prefix `tw` of what the reader had, the reader has handed out `tr >= tw` bytes (the difference is
+the chunk in flight when an error stopped the copy); `Ok(n)`: `n = tr = tw`, everything flushed,
+and from a live reader with a non-empty copy buffer that is everything. Never a panic. -/
+theorem copyLoop_spec : ∀ (fuel : Nat) (r : Rd) (w : Wr) (size total : Nat), r.WF → w.Good →
+    r.rest.length + r.entries + w.entries < fuel →
+    ∃ (tr tw : Nat) (res : Res Nat) (r' : Rd) (w' : Wr),
+      copyLoop fuel r w size total = (res, r', w') ∧ tw ≤ tr ∧ tr ≤ r.rest.length ∧
+      r'.rest = r.rest.drop tr ∧ w'.sink = w.sink ++ r.rest.take tw ∧ r'.WF ∧ w'.Good ∧
+      ((res = .ok (total + tr) ∧ tw = tr ∧ w'.Flushed ∧ (r.Live → 0 < size → tr = r.rest.length)) ∨
+        res = .err .writeZero ∨ (∃ k, res = .err (.other k))) := by
+  intro fuel
+  induction fuel with
+  | zero => intro r w size total _ _ hf; omega
+  | succ fuel ih =>
+    intro r w size total hw hg hf
+    rw [copyLoop_succ]
+    rcases Rd.read_cases r size hw with ⟨bs, r1, h⟩ | ⟨r1, h⟩ | ⟨k, r1, h⟩
+    · obtain ⟨h1, h2, h3, h4, h5, h6⟩ := Rd.read_ok hw h
+      rw [h]
+      by_cases hz : bs.length = 0
+      · simp only [hz, if_true]
+        have hr1 : r1.rest = r.rest.drop 0 := by rw [h3, hz]
+        have hlive : r.Live → 0 < size → 0 = r.rest.length := by
+          intro hl hs
+          rw [(Rd.live_ok hw hl hs h).2 hz]; rfl
+        have hfp := Wr.flush_post w hg
+        generalize hfl : w.flush = outf at hfp
+        obtain ⟨resf, w1⟩ := outf
+        obtain ⟨f1, f2, f3, f4⟩ := hfp
+        simp only [] at f1 f2 f3 f4
+        rcases f4 with ⟨a1, a2⟩ | a1 | ⟨k, a1⟩
+        · subst a1
+          simp only []
+          have hsp := Wr.shutdown_post w1 f2
+          generalize hsl : w1.shutdown = outs at hsp
+          obtain ⟨ress, w2⟩ := outs
+          obtain ⟨s1, s2, s3, s4⟩ := hsp
+          simp only [] at s1 s2 s3 s4
+          rcases s4 with ⟨b1, b2⟩ | b1 | ⟨k, b1⟩
+          · subst b1
+            exact ⟨0, 0, _, r1, w2, rfl, Nat.le_refl _, by omega, hr1, by simp [s1, f1], h4, s2,
+              Or.inl ⟨rfl, rfl, b2, hlive⟩⟩
+          · subst b1
+            exact ⟨0, 0, _, r1, w2, rfl, Nat.le_refl _, by omega, hr1, by simp [s1, f1], h4, s2,
+              Or.inr (Or.inl rfl)⟩
+          · subst b1
+            exact ⟨0, 0, _, r1, w2, rfl, Nat.le_refl _, by omega, hr1, by simp [s1, f1], h4, s2,
+              Or.inr (Or.inr ⟨k, rfl⟩)⟩
+        · subst a1
+          exact ⟨0, 0, _, r1, w1, rfl, Nat.le_refl _, by omega, hr1, by simp [f1], h4, f2,
+            Or.inr (Or.inl rfl)⟩
+        · subst a1
+          exact ⟨0, 0, _, r1, w1, rfl, Nat.le_refl _, by omega, hr1, by simp [f1], h4, f2,
+            Or.inr (Or.inr ⟨k, rfl⟩)⟩
+      · simp only [hz, if_false]
+        have hbl := take_length_le_of_eq h1
+        obtain ⟨t, resw, w1, e1, e2, e3, e4, e5⟩ :=
+          writeAllLoop_spec (fuel + 1) w bs 0 hg (by omega) (by omega)
+        unfold writeAll
+        rw [e1]
+        simp only [List.drop_zero, Nat.zero_add] at e2 e3 e5
+        have hsk : w1.sink = w.sink ++ r.rest.take t := by
+          rw [e3, h1, List.take_take, Nat.min_eq_left e2]
+        rcases e5 with ⟨a1, a2, hent⟩ | a1 | ⟨k, a1⟩
+        · subst a1
+          simp only []
+          obtain ⟨tr, tw, res, r2, w2, c1, c2, c3, c4, c5, c6, c7, c8⟩ :=
+            ih r1 w1 size (total + bs.length) h4 e4 (by rw [h3, List.length_drop]; omega)
+          rw [h3, List.length_drop] at c3
+          refine ⟨bs.length + tr, bs.length + tw, res, r2, w2, c1, by omega, by omega, ?_, ?_, c6, c7, ?_⟩
+          · rw [c4, h3, List.drop_drop]
+          · rw [c5, hsk, a2, h3, List.append_assoc, take_add_drop]
+          · rcases c8 with ⟨d1, d2, d3, d4⟩ | d1 | d1
+            · refine Or.inl ⟨by rw [d1]; congr 1; omega, by omega, d3, ?_⟩
+              intro hl hs
+              have := d4 (Rd.live_ok hw hl hs h).1 hs
+              rw [h3, List.length_drop] at this
+              omega
+            · exact Or.inr (Or.inl d1)
+            · exact Or.inr (Or.inr d1)
+        · subst a1
+          exact ⟨bs.length, t, _, r1, w1, rfl, e2, hbl, h3, hsk, h4, e4, Or.inr (Or.inl rfl)⟩
+        · subst a1
+          exact ⟨bs.length, t, _, r1, w1, rfl, e2, hbl, h3, hsk, h4, e4, Or.inr (Or.inr ⟨k, rfl⟩)⟩
+    · obtain ⟨h1, h2, h3, h4⟩ := Rd.read_intr hw h
+      rw [h]
+      obtain ⟨tr, tw, res, r2, w2, c1, c2, c3, c4, c5, c6, c7, c8⟩ :=
+        ih r1 w size total h2 hg (by rw [h1]; omega)
+      rw [h1] at c3 c4 c5 c8
+      refine ⟨tr, tw, res, r2, w2, c1, c2, c3, c4, c5, c6, c7, ?_⟩
+      rcases c8 with ⟨d1, d2, d3, d4⟩ | d1 | d1
+      · exact Or.inl ⟨d1, d2, d3, fun hl hs => d4 (Rd.live_intr hw hl hs h) hs⟩
+      · exact Or.inr (Or.inl d1)
+      · exact Or.inr (Or.inr d1)
+    · obtain ⟨h1, h2, h3, h4⟩ := Rd.read_other hw h
+      rw [h]
+      exact ⟨0, 0, _, r1, w, rfl, Nat.le_refl _, by omega, by simp [h1], by simp, h2, hg,
+        Or.inr (Or.inr ⟨k, rfl⟩)⟩
+
+
+/-! ## `Interrupted` entries are transparent -/
+
+/-- the script without its `Interrupted` entries -/
+def stripIntr : List Outcome → List Outcome
+  | [] => []
+  | .intr :: r => stripIntr r
+  | .ok n :: r => .ok n :: stripIntr r
+  | .err k :: r => .err k :: stripIntr r
+  | .eof :: r => .eof :: stripIntr r
+
+theorem stripIntr_length_le (sc : List Outcome) : (stripIntr sc).length ≤ sc.length := by
+  induction sc with
+  | nil => simp [stripIntr]
+  | cons o r ih => cases o <;> simp [stripIntr] <;> omega
+
+/-- forget the `Interrupted` entries left in a scripted reader -/
+def Rd.strip : Rd → Rd
+  | .script s sc => .script s (stripIntr sc)
+  | r => r
+
+theorem readExactLoop_strip : ∀ (sc : List Outcome) (f1 f2 : Nat) (s : Bytes) (b : VBuf) (len read : Nat),
+    (len - read) + sc.length < f1 → (len - read) + (stripIntr sc).length < f2 →
+    readExactLoop f2 (.script s (stripIntr sc)) b len read =
+      ((readExactLoop f1 (.script s sc) b len read).1, (readExactLoop f1 (.script s sc) b len read).2.1.strip,
+        (readExactLoop f1 (.script s sc) b len read).2.2) := by
+  intro sc
+  induction sc with
+  | nil =>
+    intro f1 f2 s b len read h1 h2
+    cases f1 with
+    | zero => omega
+    | succ f1 =>
+      cases f2 with
+      | zero => omega
+      | succ f2 =>
+        simp only [stripIntr, readExactLoop_succ, Rd.read, scriptRead]
+        split
+        · split <;> simp [Rd.strip, stripIntr]
+        · simp [Rd.strip, stripIntr]
+  | cons o rest ih =>
+    intro f1 f2 s b len read h1 h2
+    cases f1 with
+    | zero => omega
+    | succ f1 =>
+      cases f2 with
+      | zero => omega
+      | succ f2 =>
+        cases o with
+        | intr =>
+          simp only [stripIntr]
+          rw [readExactLoop_succ (fuel := f1)]
+          by_cases hlt : read < len
+          · by_cases hp : b.data.length < read
+            · simp only [hlt, hp, if_true, Rd.strip, stripIntr]
+              rw [readExactLoop_succ]
+              simp [hlt, hp]
+            · simp only [hlt, hp, if_true, if_false, Rd.read, scriptRead]
+              exact ih f1 (f2 + 1) s b len read (by simp at h1; omega) (by simp [stripIntr] at h2; omega)
+          · simp only [hlt, if_false, Rd.strip, stripIntr]
+            rw [readExactLoop_succ]
+            simp [hlt]
+        | ok n =>
+          simp only [stripIntr, readExactLoop_succ, Rd.read, scriptRead]
+          by_cases hlt : read < len
+          · by_cases hp : b.data.length < read
+            · simp [hlt, hp, Rd.strip, stripIntr]
+            · simp only [hlt, hp, if_true, if_false]
+              by_cases hz : (s.take (min n (b.cap - read))).length = 0
+              · simp [hz, Rd.strip, stripIntr]
+              · simp only [hz, if_false]
+                exact ih f1 f2 _ _ len _ (by simp at h1; omega) (by simp [stripIntr] at h2; omega)
+          · simp [hlt, Rd.strip, stripIntr]
+        | err k =>
+          simp only [stripIntr, readExactLoop_succ, Rd.read, scriptRead]
+          by_cases hlt : read < len
+          · by_cases hp : b.data.length < read
+            · simp [hlt, hp, Rd.strip, stripIntr]
+            · simp [hlt, hp, Rd.strip, stripIntr]
+          · simp [hlt, Rd.strip, stripIntr]
+        | eof =>
+          simp only [stripIntr, readExactLoop_succ, Rd.read, scriptRead]
+          by_cases hlt : read < len
+          · by_cases hp : b.data.length < read
+            · simp [hlt, hp, Rd.strip, stripIntr]
+            · simp [hlt, hp, Rd.strip, stripIntr]
+          · simp [hlt, Rd.strip, stripIntr]
+
 end Compio.Io
